@@ -56,7 +56,7 @@ static int corpus_load(void) {
     corpus_loaded = 1; return 0;
 }
 
-enum { CP_CROSS, CP_EMAIL, CP_LOCAL, CP_DOMAIN, CP_LITERAL, CP_TLD, CP_IDN, CP_BYTES, CP_LONG, CP_LONGIDN, CP_ALTDOT, CP_LABELLEN, CP_MAXLIT, CP_LPXDOM, CP_WHOLEDOM, CP_DEPTH, CP_EMBED, CP_SUBST, CP_SHORTLAB, CP_SCALARS, CP_N };
+enum { CP_CROSS, CP_EMAIL, CP_LOCAL, CP_DOMAIN, CP_LITERAL, CP_TLD, CP_IDN, CP_BYTES, CP_LONG, CP_LONGIDN, CP_ALTDOT, CP_LABELLEN, CP_MAXLIT, CP_LPXDOM, CP_WHOLEDOM, CP_DEPTH, CP_EMBED, CP_SUBST, CP_SHORTLAB, CP_POSN, CP_WRAP, CP_SCALARS, CP_N };
 static const char *corpus_name(int i) {
     static const char *n[] = {
         "cross: all strings over {a 1 . - @ [ ] : SP ( 0x01 #}",
@@ -78,6 +78,8 @@ static const char *corpus_name(int i) {
         "embed: every string compiled into the library objects as last label, second-level label, and every ordered pair of them as the last two labels",
         "subst: every byte value substituted at every position of 14 complete addresses",
         "shortlab: every label of 1-2 characters and every 3-character label starting with a digit over [a-z0-9-], lower and upper case, in 4 positions",
+        "posn: local parts of every length 1-66 (quick: 17 lengths around 1, 8, 16, 32, 64) filled with one letter, every byte 0x01-0xFF at every position",
+        "wrap: every byte in front of and every byte behind 5 complete addresses (all 257 x 257 pairs incl. none), plus bracket/quote/scheme wrappers",
         "scalars: every non-ASCII Unicode scalar value as an atom character, quoted (alone, after and before a space) and in a domain label" };
     return n[i];
 }
@@ -111,6 +113,8 @@ static long corpus_shards(int i) {
     case CP_EMBED: return (NEMB + 7) / 8;
     case CP_SUBST: return 14;
     case CP_SHORTLAB: return 37;
+    case CP_POSN: return CORPUS_DEEP ? 66 : 17;
+    case CP_WRAP: return 5 * 257 + 1;
     case CP_WHOLEDOM: return CORPUS_DEEP ? 0x110000 / 0x400 : 15;
     case CP_SCALARS: return 0x110000 / 0x1000;
     }
@@ -173,6 +177,12 @@ static void corpus_run(int ph, long shard, emit_fn emit, void *arg) {
             char up[300]; snprintf(up, sizeof up, "%s", t); for (char *q = up; *q; q++) *q = (char)toupper((unsigned char)*q);
             c_emit_str(emit, arg, "x@a.%s", up); c_emit_str(emit, arg, "x@%s.zzzzq", t); c_emit_str(emit, arg, "x@a.%sx", t); c_emit_str(emit, arg, "x@a.x%s", t);
             if (strlen(t) > 1) { char cut[300]; snprintf(cut, sizeof cut, "%s", t); cut[strlen(cut) - 1] = 0; c_emit_str(emit, arg, "x@a.%s", cut); }
+            /* one character replaced by its arithmetic "case partner" (+-32, ^0x20, ^0x40, ^0x10): '1' ~ 'Q', '-' ~ 'M', 'a' ~ '!' ... where that is a letter, digit
+             * or hyphen again - a label that only a hand-written case fold equates with the row */
+            { size_t tl = strlen(t); char nb[300]; if (tl < sizeof nb) for (size_t q = 0; q < tl; q++) { static const int D[] = { 32, -32, 64, -64, 16, -16 };
+                for (int di = 0; di < 6; di++) { int c = (unsigned char)t[q] + D[di]; if (!(isalnum(c) || c == '-') || c > 126 || tolower(c) == tolower((unsigned char)t[q])) continue;
+                    if (c == '-' && (q == 0 || q + 1 == tl)) continue;
+                    memcpy(nb, t, tl + 1); nb[q] = (char)c; c_emit_str(emit, arg, "x@a.%s", nb); } } }
             if (shard < CORPUS_RAW.n) { c_emit_str(emit, arg, "x@a.%s", CORPUS_RAW.row[shard].domain); c_emit_str(emit, arg, "\xd0\xb6@%s.%s", CORPUS_RAW.row[shard].domain, CORPUS_RAW.row[shard].domain); }
         } else if (shard < RT_PUNY.n + 8 * 64) {
             long k = shard - RT_PUNY.n; int ri = (int)(k % 8), len = (int)(k / 8);
@@ -305,6 +315,30 @@ static void corpus_run(int ph, long shard, emit_fn emit, void *arg) {
             /* the special character exactly at the 64th position of a longer label */
             if (len >= 65) for (const char *sp = "_-"; *sp; sp++) { for (int i = 0; i < len; i++) lab[i] = (char)('a' + i % 26); lab[63] = *sp; lab[len] = 0; c_emit_str(emit, arg, "x@%s.com", lab); c_emit_str(emit, arg, "x@a.%s", lab); }
         }
+    } break;
+    case CP_POSN: {        /* WHERE in a local part of a given length a character stands: a copy into a fixed buffer, a clamp or an off-by-one at a length limit only shows at one (length, position) */
+        static const int QL[17] = { 1, 2, 3, 7, 8, 9, 15, 16, 17, 31, 32, 33, 62, 63, 64, 65, 66 };
+        int len = CORPUS_DEEP ? (int)shard + 1 : QL[shard]; unsigned char u[128];
+        for (int p = 0; p < len; p++) for (int b = 1; b < 256; b++) {
+            memset(u, 'a', (size_t)len); u[p] = (unsigned char)b; memcpy(u + len, "@ok.com", 7); emit(u, (size_t)len + 7, arg);
+            if (b == '"' && p + 1 < len && len >= 3) { u[len - 1] = '"'; emit(u, (size_t)len + 7, arg); }       /* a quoted string from p to the end */
+            if (b == 0xd0 && p + 1 < len) { u[p + 1] = 0x96; emit(u, (size_t)len + 7, arg); }                    /* a 2-octet character at p */
+        }
+    } break;
+    case CP_WRAP: {        /* decoration AROUND a complete address that a tolerant parser would strip: <a@b>, (a@b), "a@b", mailto:a@b, a@b; ... */
+        static const char *const B[5] = { "user@mail.host", "user@example.com", "user@[192.0.2.1]", "\"u s\"@a.org", "u@\xd0\xb6.\xd1\x80\xd1\x84" };
+        if (shard == 5 * 257) {
+            static const char *const W[][2] = { { "<", ">" }, { "(", ")" }, { "[", "]" }, { "{", "}" }, { "\"", "\"" }, { "'", "'" }, { "mailto:", "" }, { "MAILTO:", "" }, { "smtp:", "" }, { "<mailto:", ">" }, { "Name <", ">" },
+                { "\"Name\" <", ">" }, { "", " (comment)" }, { "(comment) ", "" }, { "", ";" }, { "", "," }, { " ", " " }, { "\t", "\t" }, { "", "\r\n" }, { "", "\n" }, { "\r\n ", "" }, { "<<", ">>" }, { "<", "" }, { "", ">" }, { "@x:", "" }, { "@x,@y:", "" },
+                { "<@x:", ">" }, { "x!", "" }, { "x%", "" }, { "", "?subject=x" }, { "", "%x" }, { "=?utf-8?q?", "?=" } };
+            for (unsigned w = 0; w < sizeof W / sizeof W[0]; w++) for (int k = 0; k < 5; k++) { c_emit_str(emit, arg, "%s%s%s", W[w][0], B[k], W[w][1]);
+                const char *at = strrchr(B[k], '@'); char lp[32]; snprintf(lp, sizeof lp, "%.*s", (int)(at - B[k]), B[k]);
+                c_emit_str(emit, arg, "%s%s%s%s", W[w][0], lp, W[w][1], at);                    /* the same decoration around the local part only */
+                c_emit_str(emit, arg, "%s@%s%s%s", lp, W[w][0], at + 1, W[w][1]); }            /* ... and around the domain only */
+            break;
+        }
+        const char *t = B[shard / 257]; size_t n = strlen(t); int pre = (int)(shard % 257); unsigned char u[64];
+        for (int suf = 0; suf < 257; suf++) { size_t l = 0; if (pre) u[l++] = (unsigned char)pre; memcpy(u + l, t, n); l += n; if (suf) u[l++] = (unsigned char)suf; emit(u, l, arg); }
     } break;
     case CP_SCALARS: {
         unsigned long lo = (unsigned long)shard * 0x1000, hi = lo + 0x1000;
